@@ -1,9 +1,18 @@
 mod clock;
+mod csr;
+mod fw;
+mod gens;
 mod hooks;
+mod ops;
+mod oracle;
+mod props;
 mod rp;
+mod rrdpc;
 mod world;
 
 use std::path::PathBuf;
+
+use fw::{Prop, Tier};
 
 fn genkeys(n: usize, out: &str) {
     use std::io::Write;
@@ -34,46 +43,70 @@ fn genkeys(n: usize, out: &str) {
     eprintln!("wrote {c} keys to {out}");
 }
 
-fn smoke() {
-    use world::*;
-    let t0 = std::time::Instant::now();
-    let mut w = World::new(WorldCfg::default(), 0).unwrap();
-    w.init_repo_and_ta().unwrap();
-    eprintln!("ta: {:?}", t0.elapsed());
-    w.add_ca("alice").unwrap();
-    w.attach("alice", TA, &rs("AS65000-AS65010", "10.0.0.0/16", "2001:db8::/32")).unwrap();
-    eprintln!("pump0: {:?}", w.pump_quiesce(1000).unwrap());
-    w.add_ca("bob").unwrap();
-    w.attach("bob", "alice", &rs("AS65000", "10.0.0.0/24", "")).unwrap();
-    eprintln!("cas: {:?}", t0.elapsed());
-    let r = w.pump_quiesce(1000).unwrap();
-    eprintln!("pump: {:?} {:?} trace={:?}", r, t0.elapsed(), w.task_trace);
-    let upd: krill::api::roa::RoaConfigurationUpdates =
-        serde_json::from_str(r#"{"added":[{"asn":65000,"prefix":"10.0.0.0/24","max_length":24}],"removed":[]}"#).unwrap();
-    eprintln!("roa: {:?}", w.roa_update("bob", upd).map_err(|e| e.to_string()));
-    let r = w.pump_quiesce(1000).unwrap();
-    eprintln!("pump: {:?} {:?}", r, t0.elapsed());
-    for (u, b) in w.served().unwrap() {
-        eprintln!("  {u} {}", b.len());
+fn arg(args: &[String], name: &str) -> Option<String> {
+    args.iter().position(|a| a == name).and_then(|i| args.get(i + 1).cloned())
+}
+
+fn worker_for<P: Prop>(tier: Tier, seed: u64, index: usize, cases: u64, out: &str) {
+    let frag = fw::run_worker::<P>(tier, seed, index, cases);
+    std::fs::write(out, serde_json::to_string(&frag).unwrap()).unwrap();
+}
+
+fn replay_for<P: Prop>(rf: &fw::ReplayFile, times: usize) -> bool {
+    let res = fw::replay::<P>(rf, times);
+    let mut any = false;
+    for (v, m) in &res {
+        println!("{}: {}", if *v { "VIOLATED" } else { "ok" }, m);
+        any |= *v;
     }
-    let (ta, tal) = w.ta_cert_and_tal().unwrap();
-    let rep = rp::validate(&ta, &tal, &w.served().unwrap(), clock::now_s());
-    eprintln!("rp issues: {:?}\n vrps {:?}\n cas {:?}", rep.issues, rep.vrps, rep.ca_certs.iter().map(|c| (&c.uri, c.resources.to_string())).collect::<Vec<_>>());
-    eprintln!("pending: {:?}", w.pending_tasks());
-    eprintln!("keys used: {}", hooks::h().keys_used());
+    any
+}
+
+macro_rules! dispatch {
+    ($prop:expr, $f:ident, $($args:expr),*) => {
+        match $prop {
+            "C01" => $f::<props::c01::C01>($($args),*),
+            other => {
+                eprintln!("unknown property {other}");
+                std::process::exit(2);
+            }
+        }
+    };
 }
 
 fn main() {
     let args: Vec<String> = std::env::args().collect();
     let cmd = args.get(1).map(|s| s.as_str()).unwrap_or("");
+    let keyfile = PathBuf::from(std::env::var("KVH_KEYS").unwrap_or("/verif/cache/keys.pem".into()));
+    // keep panic output quiet: panics inside krill are caught and attributed
+    if std::env::var("KVH_PANIC_TRACE").is_err() {
+        std::panic::set_hook(Box::new(|_| {}));
+    }
     match cmd {
         "genkeys" => genkeys(args[2].parse().unwrap(), &args[3]),
-        "smoke" => {
-            hooks::install(Some(&PathBuf::from("/verif/cache/keys.pem")));
-            smoke();
+        "worker" => {
+            hooks::install(Some(&keyfile));
+            let prop = arg(&args, "--prop").unwrap();
+            let tier = if arg(&args, "--tier").as_deref() == Some("thorough") { Tier::Thorough } else { Tier::Quick };
+            let seed: u64 = arg(&args, "--seed").and_then(|s| s.parse().ok()).unwrap_or(0);
+            let index: usize = arg(&args, "--index").and_then(|s| s.parse().ok()).unwrap_or(0);
+            let cases: u64 = arg(&args, "--cases").and_then(|s| s.parse().ok()).unwrap_or(10);
+            let out = arg(&args, "--out").unwrap();
+            dispatch!(prop.as_str(), worker_for, tier, seed, index, cases, &out);
+            let _ = std::fs::remove_dir_all(world::scratch_root());
+        }
+        "replay" => {
+            hooks::install(Some(&keyfile));
+            let file = &args[2];
+            let times: usize = arg(&args, "--times").and_then(|s| s.parse().ok()).unwrap_or(3);
+            let rf: fw::ReplayFile = serde_json::from_str(&std::fs::read_to_string(file).unwrap()).unwrap();
+            let prop = rf.property.clone();
+            let violated = dispatch!(prop.as_str(), replay_for, &rf, times);
+            let _ = std::fs::remove_dir_all(world::scratch_root());
+            std::process::exit(if violated { 1 } else { 0 });
         }
         _ => {
-            eprintln!("usage: kvh genkeys N FILE | smoke");
+            eprintln!("usage: kvh genkeys N FILE | worker --prop ID --tier T --seed S --index I --cases K --out F | replay FILE");
             std::process::exit(2);
         }
     }
